@@ -24,7 +24,9 @@ EXHAUSTIVE_NOTE = ("every cell of the operation x state table (primitives + 25 i
                    "shapes + reduce) x {not cancelled, cancelled} x {stock, eager, uvloop} with the default prefix")
 RULE = ("one case = one table cell reached through a generated prefix history (prior acquire/release cycles by other "
         "tasks, initial values, other borrowers, buffer fill, how the scope came to be cancelled: own scope, parent "
-        "scope, past deadline, after k already-delivered cancellations); every cell is non-trivial by construction; "
+        "scope, past deadline, after k already-delivered cancellations, or a scope above the task group of a child task "
+        "that makes the call while the host sits behind a shield); in the cancelled mode the cell's state snapshot is "
+        "also taken from a loop callback while the doomed call is suspended; every cell is non-trivial by construction; "
         "distinct = distinct (cell, cancelled, config, prefix)")
 ASSUMPTIONS = [
     "exempt and not demanded: fast_acquire=True, *_nowait, close",
